@@ -484,6 +484,14 @@ def check(run):
     R.ob('C16.noescape', 'escape set of WebsocketSession.run', not esc,
          'exceptions %s can escape the connection generator and terminate persist()' % esc,
          func='session.WebsocketSession.run', node=runctx.func.node, construct='escapes: ' + ', '.join(esc))
+    # ... and nothing can be raised while the attempt is being set up, before run() is entered with its handlers:
+    # connect() adds nothing to what reset() may raise, and constructing the session cannot fail
+    esc_c = R.exc.escapes(R.ctx('websocket.WebSocket.connect')) - R.exc.escapes(R.ctx('websocket.WebSocket.reset'))
+    esc_i = R.exc.escapes(R.ctx('session.WebsocketSession.__init__'))
+    R.ob('C16.noescape', 'setting up an attempt cannot raise', not esc_c and not esc_i,
+         'exceptions %s can be raised by connect() / the session constructor before run() is entered (outside its '
+         'ConnectFail handlers): they end persist() by themselves' % sorted(esc_c | esc_i),
+         func='websocket.WebSocket.connect', node=None, construct='connect setup escapes %s' % sorted(esc_c | esc_i))
     # the escape set above rests on the error constructors not failing themselves
     from .common import message_templates
     message_templates(R, 'C16.noescape')
